@@ -390,11 +390,14 @@ impl RADAU {
         }
 
         // --- Main integration loop ---
+        // whether `jac` was evaluated at the current (x, y)
+        let mut jac_is_fresh = false;
         'main: loop {
             if call_jac {
                 // Jacobian and mass at (x, y)
                 f.jac(x, &y, &mut jac);
                 evals.jac += 1;
+                jac_is_fresh = true;
             }
 
             if call_decomp {
@@ -516,6 +519,8 @@ impl RADAU {
                     reject = true;
                     last = false;
                     call_decomp = true;
+                    // a Jacobian from an earlier step is refreshed before the retry
+                    call_jac = call_jac || !jac_is_fresh;
                     continue 'main;
                 }
 
@@ -607,6 +612,7 @@ impl RADAU {
                             // Restart the step with the reduced size; the unconverged
                             // iterate must not be used as a step result
                             call_decomp = true;
+                            call_jac = call_jac || !jac_is_fresh;
                             continue 'main;
                         }
                     } else {
@@ -621,6 +627,7 @@ impl RADAU {
                         reject = true;
                         last = false;
                         call_decomp = true;
+                        call_jac = call_jac || !jac_is_fresh;
                         continue 'main;
                     }
                 }
@@ -784,6 +791,7 @@ impl RADAU {
 
                 // Step accepted so we can reset singular counter
                 singular_count = 0;
+                jac_is_fresh = false;
 
                 // Constrain new step size
                 hnew = hnew.abs().clamp(hmin, hmax) * posneg;
